@@ -3,7 +3,7 @@ package ruleset
 
 // C17: domain rule lists match exactly the union of includes minus the excludes.
 //
-//vf:assume C17: rule sources come from a pool of 14 patterns (literals, dot, anchors, alternation, groups, classes, inline flags incl. trailing and leading (?i), (?s), (?U)); lists of <=2 (quick) / <=3 (thorough) items, every include/exclude marking with at least one include
+//vf:assume C17: rule sources come from a pool of 15 patterns (literals, a pattern that itself begins with a hyphen (expressible only as the exclude rule "--a"), dot, anchors, alternation, groups, classes, inline flags incl. trailing and leading (?i), (?s), (?U)); lists of <=2 (quick) / <=3 (thorough) items, every include/exclude marking with at least one include
 //vf:assume C17: hosts are ASCII strings of length 0..4 (quick) / 0..7 (thorough); all byte values are decided by the solver
 //vf:assume C17: each regexp object met at run time is encoded from the real regexp/syntax program and validated against the real package on all strings of length <= 4 over a pattern-derived alphabet
 
@@ -13,7 +13,7 @@ import (
 	"github.com/saucelabs/forwarder/internal/vfrt"
 )
 
-var vfRulePool = []string{"ab", "a.b", "^a", "b$", "a|b", "(a|b)c", "[a-c]+", "a.*", "(?i)ab", "ab(?i)", "(?s).", "(?U)a+b", "x?", `\.com$`}
+var vfRulePool = []string{"ab", "a.b", "^a", "b$", "a|b", "(a|b)c", "[a-c]+", "a.*", "(?i)ab", "ab(?i)", "(?s).", "(?U)a+b", "x?", `\.com$`, "-a"}
 
 //vf:harness property=C17 nopanic reach=c17-match,c17-nomatch
 func vfH_C17_match() {
@@ -33,6 +33,9 @@ func vfH_C17_match() {
 	for i := 0; i < n; i++ {
 		src := pool[vfrt.Choice("rule", len(pool))]
 		ex := vfrt.Choice("exclude", 2) == 1
+		if src[0] == '-' && !ex {
+			vfrt.Halt() // "-a" as a list item is the exclude rule "a", already in the pool
+		}
 		if !ex {
 			includes++
 		}
